@@ -123,7 +123,7 @@ class StreamRig:
         self.rig.dispose()
 
 
-def run_stream(gen, msgs, extra_cutsets, gaps_cycle, tier, stats: Stats | None):
+def run_stream(gen, msgs, extra_cutsets, gaps_cycle, tier, stats: Stats | None, burst: bool = False):
     case_base = {"gen": gen, "msgs": [ser.to_json(m) for m in msgs]}
     sr = StreamRig(gen, msgs, case_base)
     try:
@@ -140,9 +140,22 @@ def run_stream(gen, msgs, extra_cutsets, gaps_cycle, tier, stats: Stats | None):
 
         go(list(range(1, n)), "none")          # all single bytes
         go(list(range(1, n)), "turn1")
-        for c in range(1, n):                   # every single cut
-            go([c])
-        classes = ["single-cuts"]
+        if burst:
+            # many frames at once: the whole stream in one segment, one frame per segment and groups of frames per
+            # segment under every kind of gap (nothing in between ... a clock advance), plus a sample of single cuts
+            bs = sorted(sr.bounds)[:-1]
+            for g in GAPS:
+                go([], g)
+                go(bs, g)
+                for k in (2, 3, 5, 9):
+                    go(bs[k - 1::k], g)
+            for c in range(1, n, max(1, n // 60)):
+                go([c])
+            classes = ["burst-of-frames"]
+        else:
+            for c in range(1, n):                   # every single cut
+                go([c])
+            classes = ["single-cuts"]
         pair_limit, triple_limit = (40, 0) if tier == "quick" else (64, 64)
         if n <= pair_limit:
             for cs in itertools.combinations(range(1, n), 2):
@@ -180,13 +193,13 @@ def run_stream(gen, msgs, extra_cutsets, gaps_cycle, tier, stats: Stats | None):
         sr.dispose()
 
 
-def _strategy(gen: int, small: bool):
+def _strategy(gen: int, small: bool, burst: bool = False):
     kinds = None
-    if small:
+    if small or burst:
         kinds = ["group_status", "ac_status", "ext_err_msg", "ext_version_msg", "ext_names_msg"] if gen == 4 else \
             ["ext_err_msg", "ext_version_msg", "ext_names_msg", "timer_status", "zone_status"]
     msgs = st.lists(gens.message(gen, kinds=kinds, direction="s2c").map(lambda km: km[1]),
-                    min_size=1, max_size=2 if small else 6)
+                    min_size=9 if burst else 1, max_size=40 if burst else (2 if small else 6))
     cutsets = st.lists(st.lists(st.integers(0, 10000), min_size=1, max_size=20), min_size=4, max_size=30)
     gaps = st.lists(st.sampled_from(GAPS), min_size=1, max_size=5)
     return st.tuples(msgs, cutsets, gaps)
@@ -199,11 +212,13 @@ def shards(tier: str):
         for k in range(reps):
             out.append({"gen": gen, "small": False, "n": n, "k": k})
             out.append({"gen": gen, "small": True, "n": n, "k": k})
+        for k in range(2):
+            out.append({"gen": gen, "small": False, "burst": True, "n": n // 2, "k": k})
     return out
 
 
 def floors(tier: str):
-    f = {"single-cuts": 100, "segmentations": 10000, "connection-lost-mid-stream": 100}
+    f = {"single-cuts": 100, "segmentations": 10000, "connection-lost-mid-stream": 100, "burst-of-frames": 30}
     f["exhaustive-2cuts" if tier == "quick" else "exhaustive-3cuts"] = 3
     return f
 
@@ -214,9 +229,9 @@ def run_shard(spec, seed: int, tier: str):
 
     def body(case):
         msgs, cutsets, gaps = case
-        run_stream(gen, msgs, cutsets, gaps, tier, stats)
+        run_stream(gen, msgs, cutsets, gaps, tier, stats, burst=bool(spec.get("burst")))
 
-    drive(stats, lambda s: given_test(_strategy(gen, spec["small"]), lambda c: stats.guard(body, c), s, spec["n"]), seed)
+    drive(stats, lambda s: given_test(_strategy(gen, spec["small"], bool(spec.get("burst"))), lambda c: stats.guard(body, c), s, spec["n"]), seed)
     return stats.result()
 
 
